@@ -173,6 +173,7 @@ pub struct MtState {
     /// removal mark of thread t that is neither unlinked nor taken back yet: (node offset, line of the mark CAS)
     pub outstanding: Vec<Option<(usize, u32)>>,
     // ---- C06 with threads in flight: memory image + obligations at atomic steps
+    pub zombies: u64,
     pub crash_every: Option<u64>,
     pub crash_points: Vec<CrashPt>,
     pub last_global: (u32, u8, u8),
@@ -706,6 +707,24 @@ pub fn plain_write(t: usize, addr: usize, len: usize, what: &'static str) {
 pub fn teardown(t: usize, _addr: usize, _len: usize) {
     let mut g = lock();
     let s = g.as_mut().unwrap();
+    if s.torn_down {
+        // a second release of the backing store: stop this thread *before* it frees memory twice.
+        // It becomes a zombie (never resumes); the run is cut.
+        s.teardowns += 1;
+        let d = format!("[released twice] T{} is about to release the backing store although it has already been released (the last-handle decision was taken twice)", t);
+        s.violation("C13", "teardown_count", d.clone());
+        s.violation("C12", "teardown_not_last", d.clone());
+        s.set_abort("teardown_twice", d);
+        s.status[t] = TStatus::Finished;
+        s.zombies += 1;
+        for c in CVS.iter() {
+            c.notify_all();
+        }
+        drop(g);
+        loop {
+            std::thread::park();
+        }
+    }
     s.teardowns += 1;
     if s.hb {
         let cap = s.cap;
@@ -1264,6 +1283,7 @@ pub fn install(arena: &Arena, p: &MtParams, initial_shadow: Vec<ShadowRange>) {
         pending_mark: vec![None; n],
         mark_line: vec![0; n],
         outstanding: vec![None; n],
+        zombies: 0,
         crash_every: p.crash_every,
         crash_points: Vec::new(),
         last_global: (0, 0, 0),
@@ -1274,7 +1294,6 @@ pub fn install(arena: &Arena, p: &MtParams, initial_shadow: Vec<ShadowRange>) {
 /// Runs the threads to completion (or abort) and returns their final states plus the simulator state.
 pub fn run_threads(starts: Vec<ThreadStart>) -> (Vec<ThreadEnd>, Box<MtState>) {
     let n = starts.len();
-    let mut joins = Vec::new();
     // spawn edge: every thread starts after everything the controller did
     with(|s| {
         if s.hb {
@@ -1285,10 +1304,19 @@ pub fn run_threads(starts: Vec<ThreadStart>) -> (Vec<ThreadEnd>, Box<MtState>) {
             s.clocks[n][n] += 1;
         }
     });
+    let (tx, rx) = std::sync::mpsc::channel::<ThreadEnd>();
     for st in starts {
         let b = std::thread::Builder::new().stack_size(512 * 1024).name(format!("sim-T{}", st.t));
-        joins.push(b.spawn(move || thread_main(st)).expect("spawn"));
+        let tx = tx.clone();
+        // detached: a thread stopped in front of a double free never returns (see `teardown`)
+        let _ = b
+            .spawn(move || {
+                let end = thread_main(st);
+                let _ = tx.send(end);
+            })
+            .expect("spawn");
     }
+    drop(tx);
     // hand the baton to the first decision
     {
         let mut g = lock();
@@ -1299,10 +1327,15 @@ pub fn run_threads(starts: Vec<ThreadStart>) -> (Vec<ThreadEnd>, Box<MtState>) {
         cv(first).notify_all();
     }
     let mut ends = Vec::new();
-    for j in joins {
-        match j.join() {
+    loop {
+        let zombies = with(|s| s.zombies) as usize;
+        if ends.len() + zombies >= n {
+            break;
+        }
+        match rx.recv_timeout(std::time::Duration::from_millis(50)) {
             Ok(e) => ends.push(e),
-            Err(_) => ends.push(ThreadEnd { handles: Vec::new(), arenas: Vec::new(), aborted: true, ops_done: 0 }),
+            Err(std::sync::mpsc::RecvTimeoutError::Timeout) => {}
+            Err(std::sync::mpsc::RecvTimeoutError::Disconnected) => break,
         }
     }
     let st = lock().take().expect("state");
